@@ -93,6 +93,7 @@ template <class T> static void run_T(Choice &c, Ctx &cx)
             Dense<W> P = product(Ld, Ud), M(n, n);
             for (int j = 0; j < n; ++j) for (int i = 0; i < n; ++i) M(i, j) = P(e.perm_r[i], e.perm_c[j]);
             Dense<W> Op = trant == NOTRANS ? M : transpose(M, trant == CONJ);
+            if (cplx && o.nr && o.trans == CONJ) for (auto &x : Op.a) x = conj_w(x);   // row storage, Trans = CONJ: the operator is conj(M)
             Dense<LD> F = permute_back(E, e.perm_r.data(), e.perm_c.data(), n, trant != NOTRANS);
             const std::vector<R> *xs = notran_eff ? (colequ ? &e.Cs : nullptr) : (rowequ ? &e.Rs : nullptr);
             const std::vector<R> *bs = notran_eff ? (rowequ ? &e.Rs : nullptr) : (colequ ? &e.Cs : nullptr);
